@@ -1501,9 +1501,10 @@ class Component(composites.Composite, metaclass=ComponentType):
             # possible that there are no nuclides in this component yet. In that case,
             # defer to Material. Material.density is wrapped to warn if it's attached
             # to a parent. Avoid that by calling the inner function directly
-            density = self.material.density.__wrapped__(
-                self.material, Tc=self.temperatureInC
-            )
+            # (fluids are not wrapped, so there is no inner function to look for)
+            materialDensity = type(self.material).density
+            materialDensity = getattr(materialDensity, "__wrapped__", materialDensity)
+            density = materialDensity(self.material, Tc=self.temperatureInC)
 
         return density
 
